@@ -1,16 +1,32 @@
 import Driver.Util
+import Driver.Conc.Cell
+import Driver.Conc.BPool
+import Driver.Conc.OOM
 /-! package `Conc` (see CONVENTIONS.md): register components in `step`.
 `cfg` lines this package cares about may be matched here too (they must answer "ok");
-every package sees every `cfg` line. -/
+every package sees every `cfg` line.
+
+* `cell` / `fwd` / `casbit` (C17, C18): `Driver/Conc/Cell.lean`
+* `bpool` (C19): `Driver/Conc/BPool.lean`
+* `oom` (C10): `Driver/Conc/OOM.lean` -/
 namespace Driver.Conc
 open Driver
 
 structure St where
   debug : Bool := true
+  cell : Cell.Cell := {}
+  bpool : BPool.St := {}
 
 /-- `none` = not a component of this package. -/
 def step (st : St) (toks : List String) : Option (St × String) :=
+  match Cell.step st.debug st.cell toks with
+  | some (c, o) => some ({ st with cell := c }, o)
+  | none =>
   match toks with
+  | "bpool" :: args =>
+    let (b, o) := BPool.step st.bpool args
+    some ({ st with bpool := b }, o)
+  | "oom" :: args => some (st, OOM.step args)
   | _ => none
 
 /-- `cfg` lines are broadcast to every package. -/
